@@ -118,6 +118,10 @@ func memclrNoHeapPointers(ptr unsafe.Pointer, n uintptr) {
 	c.Memset(ptr, 0, n)
 }
 
+func memmove(dst, src unsafe.Pointer, n uintptr) {
+	c.Memmove(dst, src, n)
+}
+
 func fatal(s string) {
 	print("fatal error: ", s, "\n")
 }
